@@ -7,7 +7,7 @@
 (* pi = line of the event that holds the pre-state of the call (the        *)
 (* previous successful call or init).  Every event is one state.           *)
 (***************************************************************************)
-EXTENDS Swaps, SchedView, Json, IOUtils
+EXTENDS Swaps, Rotation, SchedView, Json, IOUtils
 
 Rec == ndJsonDeserialize(IOEnv.TRACE)
 LoadIdx == {i \in DOMAIN Rec : Rec[i].ev = "load"}
@@ -157,6 +157,16 @@ P_C13_fit_refusal == IsFit =>
    (E.ok <=> (/\ FitPre(NetE, Abs(PreS), E.args.p, E.args.r, SegS, SegE)
               /\ FitFormOK(NetE, Abs(PreS), E.args.p, E.args.r, SegS, SegE)))
 
+\* the cycles built by recompute_transitions_for / improve_depots(None) are those of the greedy function
+\* NewFast of Rotation.tla (transcribed from Transition::new_fast)
+VehSeq(S, ty) == LET s == SelectSeq(S.veh, LAMBDA v : v.ty = ty) IN [i \in DOMAIN s |-> s[i].id]
+NonEmptyCycles(S, ty) == SelectSeq(CyclesOf(S, ty), LAMBDA c : c # << >>)
+RecomputedTypes ==
+  IF E.op = "recompute_transitions_for" THEN (IF E.args.all THEN NetE.types ELSE Range1(E.args.tys))
+  ELSE IF E.op = "improve_depots" /\ E.args.all THEN NetE.types ELSE {}
+P_C13_recompute_exact == (IsOp /\ E.ok) =>
+   \A ty \in RecomputedTypes : NonEmptyCycles(E.S, ty) = NewFast(NetE, TourMap(E.S), VehSeq(E.S, ty))
+
 \* rotation cycles: membership maintained unless the operation is documented to recompute
 CyclesEffectOK(N, A, B, ca, cb) ==
   CASE E.op \in {"spawn_vehicle_for_path", "spawn_vehicle_to_replace_dummy_tour", "replace_vehicle_by_dummy",
@@ -171,6 +181,21 @@ CyclesEffectOK(N, A, B, ca, cb) ==
     [] OTHER -> FALSE
 P_C13_cycles == (IsOp /\ E.ok) =>
    CyclesEffectOK(NetE, Abs(PreS), Abs(E.S), Cyc(NetE, PreS), Cyc(NetE, E.S))
+(* ---------------- C15: the real transition optimiser on reachable schedules ---------------- *)
+\* it returns cycles over the same vehicles whose violation, then counter (both recomputed from the
+\* tours), is not worse than what it was given
+IsTopt == E.ev = "topt"
+P_C15_topt == IsTopt =>
+   /\ E.ok
+   /\ \A x \in Range1(E.tr) :
+         LET A    == PreS
+             cyc  == SelectSeq(x.cyc, LAMBDA c : c # << >>)
+             pre  == SelectSeq(x.pre, LAMBDA c : c # << >>)
+             flat == FoldLeft(LAMBDA acc, c : acc \o c, << >>, cyc)
+         IN /\ NoDup(flat) /\ Range1(flat) = VehOfType(A, x.ty)
+            /\ LexLeq(<<Violation(NetE, TourMap(A), cyc), CounterTotal(NetE, TourMap(A), cyc)>>,
+                      <<Violation(NetE, TourMap(A), pre), CounterTotal(NetE, TourMap(A), pre)>>)
+
 (* ---------------- specification -> implementation: replayed model histories ---------------- *)
 \* MC_Schedule emits every explored state with a history of fully determined calls; after replaying the
 \* history on the real Schedule the observed abstract state must be exactly the model state
